@@ -90,6 +90,18 @@ CHECKS.update({
         design='DESIGN.md §4 C11', engine='enumvals+worlds+refmodel'),
 })
 
+CHECKS.update({
+    'C16': dict(
+        technique='exhaustive enumeration of 27 signature shapes x all bindings over a small value set x all call spellings on the real decorator; dict-model histories over control keywords',
+        text='For each of 27 method signatures (0-2 positional, 0-2 defaulted, keyword-only absent/defaulted/required) every binding over 5 (quick) / 6 (thorough) JSON-distinguishable '
+             'values with <= 2 distinct values per call is issued in EVERY spelling (positional prefix, all keyword orders, defaults omitted or spelled out, equal dicts in another key '
+             'order); the method must execute exactly once per distinct non-ignored binding, every spelling must return the value the method computes from the bound arguments, '
+             'entry counts must match. ignore_kwargs subsets, bare/called decorator, own in-memory cache, own JsonCache and explicit cache objects, two methods and three versions on '
+             'one object; all histories of depth <= 3 (4) over {plain, force_cache, only_cache, store_cache_value, force+store} x 2 bindings against a dictionary model.',
+        note='Values are JSON-distinguishable by construction; custom key functions are not enumerated.',
+        design='DESIGN.md §4 C16', engine='enumvals'),
+})
+
 PENDING_REASON = 'check not built yet in this round (planned per DESIGN.md §4; technique applies)'
 
 
